@@ -186,7 +186,10 @@ package tls
 //@ pred vpKeyOK(pk) = (ltRSA(pk) ==> unboxed(pk, *zcrypto_rsa.PublicKey) != nil) && (typeis(pk, *zcrypto_x509.AugmentedECDSA) ==> vpAug(pk) != nil && vpAug(pk).Pub != nil && vpAug(pk).Pub.Curve != nil && vpAug(pk).Pub.X != nil && vpAug(pk).Pub.Y != nil) && dsaStdOK(pk)
 // (objects of different Go types cannot overlap; the untyped memory model needs to be told)
 //@ pred vpKeySep(o, pk) = (typeis(pk, *zcrypto_x509.AugmentedECDSA) ==> sep(o, vpAug(pk)) && sep(o, vpAug(pk).Pub)) && (typeis(pk, *crypto_dsa.PublicKey) ==> sep(o, unboxed(pk, *crypto_dsa.PublicKey)))
-//@ pred vpArgsOK(config, clientHello, serverHello, cert) = config != nil && clientHello != nil && serverHello != nil && cert != nil && vpKeyOK(cert.PublicKey)
+// A configured Config.SignatureAndHashes list names only hash ids the package implements
+// (1..6, the keys of supportedHashFunc): with any other id a peer naming that hash would make
+// crypto.Hash(0).New() panic. This is a requirement on the user's configuration, not on the peer.
+//@ pred vpArgsOK(config, clientHello, serverHello, cert) = config != nil && clientHello != nil && serverHello != nil && cert != nil && vpKeyOK(cert.PublicKey) && cfgHashesOK(config)
 
 // C27 (DHE suites, RFC 5246 7.4.3: the signature covers client random, server random and the
 // ServerDHParams): verifyParameters returns a nil error only on the path through one of the
